@@ -100,7 +100,10 @@ class Transformer(Visitor):
         if self.invalidate_source and 'source' in args_frozen:
             # If any child node has been invalidated, mark this node as invalid too
             if is_source_valid(args_frozen.get('source')):
-                if any(isinstance(c, Node) and not is_source_valid(c) for c in flatten(children)):
+                nodes = [c for c in flatten(children) if isinstance(c, Node)]
+                n_before = sum(1 for c in flatten(o.children) if isinstance(c, Node))
+                # ...or if child nodes have been removed or added
+                if any(not is_source_valid(c) for c in nodes) or len(nodes) != n_before:
                     args_frozen['source'] = args_frozen['source'].clone()
                     args_frozen['source'].invalidate(children=True)
 
